@@ -592,7 +592,14 @@ fn usage(ctx: &mut Ctx, plan: &Plan, drv: &mut Built<WatchHal>, all: &mut Vec<Te
             for i in 0..*npk { let mut pkt = vec![0u8; 12]; pkt.extend(vec![i as u8; 60]); dev_deliver(0, &pkt); }
             let mut got = vec![];
             for _ in 0..*nrecv { if let Ok(Ok(b)) = catch_unwind(AssertUnwindSafe(|| n.receive())) { got.push(b); } }
-            for _ in 0..*ngive { if let Some(b) = got.pop() { let _ = catch_unwind(AssertUnwindSafe(|| n.recycle_rx_buffer(b))); } }
+            // hand buffers back newest-first or in arrival order (then each is re-posted under the other's descriptor)
+            let fifo = ctx.rng.chance(1, 2);
+            for _ in 0..*ngive { if !got.is_empty() { let b = if fifo { got.remove(0) } else { got.pop().unwrap() }; let _ = catch_unwind(AssertUnwindSafe(|| n.recycle_rx_buffer(b))); } }
+            if fifo && *ngive >= 2 { ctx.tr.note("usage_netbuf_recycled_in_arrival_order"); }
+            // second round: the device works through the whole available ring, so the re-posted buffers complete too;
+            // every frame is received and its buffer handed back at once
+            for i in 0..(2 * drivers9::NETQ) { let mut pkt = vec![0u8; 12]; pkt.extend(vec![0x80 | i as u8; 40]); if !dev_deliver(0, &pkt) { break; }
+                if let Ok(Ok(b)) = catch_unwind(AssertUnwindSafe(|| n.receive())) { let _ = catch_unwind(AssertUnwindSafe(|| n.recycle_rx_buffer(b))); } }
             // buffers still in the caller's hands outlive the driver
             for b in got { held.push(Box::new(b)); }
             let evs = collect(mark); usage_line(ctx, &evs, all);
